@@ -172,6 +172,7 @@ def float_to_fix(signed, n_bits, n_frac):
 
     mask = int(2**n_bits - 1)
     min_v, max_v = validate_fp_params(signed, n_bits, n_frac)
+    max_fp = (1 << (n_bits - 1 if signed else n_bits)) - 1
 
     # Saturate values
     def bitsk(value):
@@ -187,7 +188,8 @@ def float_to_fix(signed, n_bits, n_frac):
         if value < 0:
             fp_val = (1 << n_bits) + int(value * 2**n_frac)
         else:
-            fp_val = int(value * 2**n_frac)
+            # (max_v is rounded up if it is not representable as a float)
+            fp_val = min(int(value * 2**n_frac), max_fp)
 
         assert 0 <= fp_val < 1 << (n_bits + 1)
         return fp_val & mask
